@@ -84,6 +84,13 @@ theorem ssh_rsa_blob_readback (e n : Nat) (he3 : 3 ≤ e) (hodd : e % 2 = 1) (he
   parsePublicKey_rsaBlob e n he3 hodd he hn
 
 open WhatIs.SshWire WhatIs.Spec.SshWireText WhatIs.Lemmas.SshWire in
+/-- with ANY octets appended the same blob is refused: a key blob is read as a whole or not at all -/
+theorem ssh_rsa_blob_trailing_refused (e n : Nat) (he3 : 3 ≤ e) (hodd : e % 2 = 1) (he : e < 16777216)
+    (hn : mpintLen n < 4294967296) (t : Bytes) (ht : t ≠ []) :
+    parsePublicKey (rsaBlob e n ++ t) = .err :=
+  parsePublicKey_rsaBlob_trailing e n he3 hodd he hn t ht
+
+open WhatIs.SshWire WhatIs.Spec.SshWireText WhatIs.Lemmas.SshWire in
 /-- … and described with the type label it stores and the BIT LENGTH of the modulus it stores — for every modulus, from
     the bytes of the blob (the container decoding is no longer a hypothesis for this container) -/
 theorem ssh_rsa_blob_described (e n : Nat) (he3 : 3 ≤ e) (hodd : e % 2 = 1) (he : e < 16777216)
